@@ -1,7 +1,13 @@
 (* Executable model of jumanji/environments/logic/sliding_tile_puzzle (env.py, generator.py, reward.py,
    constants.py).  Impl layer: mirrors the code's algorithm, JAX index behaviour explicit (gather clamps,
-   scatter drops).  The declarative rules are [legal], [transp] and the checkers at the end.
-   No proofs here (see Proofs/SlidingTile*.v).                                                        *)
+   scatter drops).  The declarative rules are [legal], [neighbour], [transp] and the checkers at the end.
+   No proofs here (see Proofs/SlidingTile.v for the board / moves / generator, Proofs/SlidingTile_Episode.v for
+   step / reset / episodes).  Reviewed against env.py, generator.py, reward.py, constants.py of the pinned tree:
+   MOVES order (up, right, down, left), gather-then-two-scatters in _move_empty_tile, lax.cond on is_valid_move,
+   done = array_equal(updated, solved), termination at step_count + 1 >= time_limit, reward computed from the OLD and
+   the NEW puzzle, generator = fold of _swap_tiles over draws from the solved board with the blank at (n-1, n-1).
+   Entry points (harness/envs/sliding_tile_puzzle.py): stp_step_io, stp_reset_io, stp_goal_io, stp_gen_io, stp_check_io,
+   stp_cert_io, stp_solve_io, stp_sweep_io.                                                                       *)
 Require Import JV.Base.Prelude JV.Base.JaxIndex JV.Base.Codec JV.Base.TimeStep.
 
 Definition board := list (list Z).
@@ -154,11 +160,14 @@ Definition stp_gen_io (l : list Z) : list Z :=
 (* @export stp_gen_io *)
 
 (* verified checkers on IMPLEMENTATION states.  in: n, board, blank, mask(4) ->
-   [mask = legal for every action; well-shaped; tiles are a permutation of 0..n^2-1; blank position consistent] *)
+   [mask = legal for every action; well-shaped; tiles are a permutation of 0..n^2-1; blank position consistent;
+    legal_b for a = 0..3 (4 flags); number of cells that agree with the goal; solved test] *)
 Definition stp_check_io (l : list Z) : list Z :=
   let (n, l) := take1 l in let (b, l) := dec_board n l in let (m, _) := taken 4 l in
   [ b2z (list_eqb Bool.eqb (bools m) (map (legal_b n (snd b)) (zrange 4)));
-    b2z (wf_b n (fst b)); b2z (perm_b n (fst b)); b2z (blank_ok_b n (fst b) (snd b)) ].
+    b2z (wf_b n (fst b)); b2z (perm_b n (fst b)); b2z (blank_ok_b n (fst b) (snd b)) ]
+  ++ map (fun a => b2z (legal_b n (snd b) a)) (zrange 4)
+  ++ [ correct n (fst b); b2z (grid_eqb (fst b) (goal n)) ].
 (* @export stp_check_io *)
 
 (* reachability certificate: in: n, board, blank, k, actions(k) -> [run_moves from the goal along the actions gives exactly this board] *)
@@ -168,17 +177,31 @@ Definition stp_cert_io (l : list Z) : list Z :=
   [ b2z (grid_eqb (fst r) (fst b) && peqb (snd r) (snd b)) ].
 (* @export stp_cert_io *)
 
+(* solution certificate: in: n, board, blank, k, actions(k) -> final board, blank, [final = goal; every action was legal] *)
+Fixpoint legal_run_b (n : Z) (b : board * cellp) (acts : list Z) : bool :=
+  match acts with
+  | [] => true
+  | a :: r => legal_b n (snd b) a && legal_run_b n (move_empty n (fst b) (snd b) a) r
+  end.
+Definition stp_solve_io (l : list Z) : list Z :=
+  let (n, l) := take1 l in let (b, l) := dec_board n l in let (k, l) := take1 l in let (acts, _) := taken k l in
+  let r := run_moves n b acts in
+  enc_board r ++ [ b2z (grid_eqb (fst r) (goal n) && peqb (snd r) (goal_blank n)); b2z (legal_run_b n b acts) ].
+(* @export stp_solve_io *)
+
 (* C17 sweep.  in: n, count, count x (board, blank) ->
    per state and per action a in 0..3: successor board, blank, and the law flags
-   [opposite move restores the state (when a was legal) / state unchanged (when illegal); inv_b of the successor;
-    solved test of the successor] *)
+   [dense reward; sparse reward;
+    opposite move restores the state and the state changed (when a was legal) / state unchanged (when illegal);
+    inv_b of the successor; solved test of the successor] *)
 Definition sweep_one (n : Z) (b : board * cellp) : list Z :=
   concat (map (fun a =>
     let b' := move_empty n (fst b) (snd b) a in
     let back := move_empty n (fst b') (snd b') (opp a) in
     let same x y := grid_eqb (fst x) (fst y) && peqb (snd x) (snd y) in
     enc_board b' ++
-    [ b2z (if legal_b n (snd b) a then same back b && negb (same b' b) else same b' b);
+    [ dense_reward (fst b) (fst b') (goal n); sparse_reward (fst b') (goal n);
+      b2z (if legal_b n (snd b) a then same back b && negb (same b' b) else same b' b);
       b2z (inv_b n (fst b') (snd b'));
       b2z (grid_eqb (fst b') (goal n)) ]) (zrange 4)).
 Definition stp_sweep_io (l : list Z) : list Z :=
